@@ -124,9 +124,25 @@ def _serve(conn, handlers, ipc):
             os.setpgid(0, 0)
         except OSError:
             pass
-    # self-destruct slightly before the caller's socket timeout, stack goes to stderr
+    # self-destruct slightly before the caller's socket timeout, stack goes to stderr.
+    # Two clocks: a CPU-time budget (robust against a loaded machine; this is the one that
+    # classifies "no progress") and a generous wall-clock backstop.
     faulthandler.enable()
     faulthandler.dump_traceback_later(max(1.0, cap - 1.0), exit=True)
+    cpu_cap = int(req.get("cpu_cap_s", 0) or 0)
+    if cpu_cap:
+        import resource
+
+        def _xcpu(signum, frame):
+            sys.stderr.write("CPU-Timeout (%ds of CPU time)!\n" % cpu_cap)
+            faulthandler.dump_traceback(all_threads=False)
+            sys.stderr.flush()
+            os._exit(98)
+
+        signal.signal(signal.SIGXCPU, _xcpu)
+        used = resource.getrusage(resource.RUSAGE_SELF)
+        base = int(used.ru_utime + used.ru_stime)
+        resource.setrlimit(resource.RLIMIT_CPU, (base + cpu_cap, base + cpu_cap + 10))
     ipc.send_msg(conn, {"pid": os.getpid()})
     try:
         resp = handlers.dispatch(req)
